@@ -8,14 +8,11 @@ import UnytProofs.Lemmas.C14Chunk01  -- build order only: at most four chunks ar
 namespace Unyt.C14
 
 /-- every listed name of chunk 5 (four slices of 64 rows) is read by the string route and by the
-    three attribute routes as the independent reference reads it (guard: word-prefixed °C) -/
+    three attribute routes as the independent reference reads it -/
 theorem names_slice_05_0 : namesSliceOk 5 0 = true := by decide +kernel
 theorem names_slice_05_1 : namesSliceOk 5 1 = true := by decide +kernel
 theorem names_slice_05_2 : namesSliceOk 5 2 = true := by decide +kernel
 theorem names_slice_05_3 : namesSliceOk 5 3 = true := by decide +kernel
-
-/-- every excluded name of chunk 5 really is unusable as a unit string -/
-theorem exclusions_chunk_05 : exclusionsChunkOk 5 = true := by decide +kernel
 
 /-- prefix spellings 3·5 … 3·5+2 (symbols, then word forms) are rejected on every
     non-prefixable spelling (three slices of 110 spelling rows) -/
